@@ -393,6 +393,10 @@ class ProtobufWriter(Converter):
     def _convert_instantaneous_action(
         self, a: model.InstantaneousAction
     ) -> proto.Action:
+        if a.simulated_effect is not None:
+            raise UPException(
+                f"The action `{a.name}` has a simulated effect, which has no protobuf representation."
+            )
         effects = []
         conditions = []
 
@@ -417,6 +421,10 @@ class ProtobufWriter(Converter):
 
     @handles(model.DurativeAction)
     def _convert_durative_action(self, a: model.DurativeAction) -> proto.Action:
+        if len(a.simulated_effects) > 0:
+            raise UPException(
+                f"The action `{a.name}` has simulated effects, which have no protobuf representation."
+            )
         return proto.Action(
             name=a.name,
             parameters=[self.convert(p) for p in a.parameters],
